@@ -84,7 +84,7 @@ Definition subclass (T : tables) (c d : cname) : bool := existsb (cname_eqb d) (
 Inductive party := Self | Other.          (* the undefined under test / the other operand *)
 Inductive logev := LWarn (p : party) | LErr (p : party).
 
-Inductive bkind := KInt | KFloat | KStr | KNone | KList.
+Inductive bkind := KInt | KFloat | KStr | KNone | KList | KMarkup.   (* KMarkup: a markupsafe.Markup string *)
 Inductive operand := Und (c : cname) (p : party) | Blt (k : bkind).
 Inductive arg := ANone | AOp (o : operand) | AName (dunder : bool).
 
@@ -336,6 +336,24 @@ Definition or_else (x : option orun) (k : orun) : orun := match x with Some r =>
 
 Definition arith_op T (a : arith) (l r : operand) : orun :=
   match l, r with
+  | Blt KMarkup, Und cr pr =>
+      (* Markup's own operators run first (Markup is a str subclass defining them):
+         Markup.__add__ escapes the other operand when it has __html__ (calling it) and answers
+         NotImplemented otherwise; Markup.__mod__ formats; Markup.__mul__ delegates to str.__mul__,
+         which raises TypeError for a non-integer; everything else is NotImplemented *)
+      match a with
+      | Add =>
+          if has T cr m_html then
+            match vcall T cr pr m_html ANone with
+            | (MRet v, lg) => if is_strv v then (Succeeds RBuiltin, lg) else (TypeErr, lg)
+            | (MRaise q, lg) => (Raises q, lg)
+            | (_, lg) => (Unmodelled, lg)
+            end
+          else or_else (binres (vcall T cr pr (rname a) (AOp l))) (TypeErr, [])
+      | Mod => (Succeeds RBuiltin, [])
+      | Mul => (TypeErr, [])
+      | _ => or_else (binres (vcall T cr pr (rname a) (AOp l))) (TypeErr, [])
+      end
   | Blt k, Und cr pr =>
       if builtin_handles k a then (Succeeds RBuiltin, [])
       else or_else (binres (vcall T cr pr (rname a) (AOp l))) (TypeErr, [])
